@@ -485,6 +485,11 @@ func (x *fx) regionsOf(e *Expr, env *specEnv) []region {
 	// p.f : a single field of the struct p points to
 	if e.Op == "field" {
 		base := x.eval(e.Args[0], env)
+		if _, ok := base.T.Underlying().(*types.Pointer); ok && len(base.Path) > 0 {
+			// field of a struct embedded in a heap object: the enclosing root field is the region
+			off := ptrOff(base.S)
+			return []region{{mem: x.fieldMemNameOf(base.Path[0]), ref: ptrRef(base.S), lo: off, hi: x.iadd(off, x.idxConst(1))}}
+		}
 		if pt, ok := base.T.Underlying().(*types.Pointer); ok && len(base.Path) == 0 {
 			if st, ok := pt.Elem().Underlying().(*types.Struct); ok {
 				for k := 0; k < st.NumFields(); k++ {
